@@ -1,0 +1,15 @@
+//go:build verif
+
+package sqlite
+
+import "database/sql"
+
+// VerifSetDBOpener replaces the function New uses to open the database (the package's existing
+// test seam, dbOpener) and returns a function that restores the previous one. It exists only in
+// builds with the `verif` tag, for verification harnesses that inject read errors at the
+// database/sql driver level.
+func VerifSetDBOpener(opener func(driverName, dataSourceName string) (*sql.DB, error)) (restore func()) {
+	prev := dbOpener
+	dbOpener = opener
+	return func() { dbOpener = prev }
+}
